@@ -25,14 +25,14 @@ const N_FAULTS: u64 = 9;
 
 fn streams(t: Tier) -> Vec<StreamDef> {
     // enumerated: k in 1..=4, fault kind per position in 0..=N_FAULTS (0 = none) -> (N+1)^4 * 4 upper bound
-    vec![st("enumerated", t.n(50_000, 50_000, 100, 50_000), true), st("sampled", t.n(40_000, 2_000_000, 60, 10_000), false), st("first_not_type", t.n(5_000, 200_000, 30, 2_000), false)]
+    vec![st("enumerated", t.n(50_000, 50_000, 100, 50_000), true), st("sampled", t.n(40_000, 2_000_000, 60, 10_000), false), st("first_not_type", t.n(5_000, 200_000, 30, 2_000), false), st("many_records", t.n(96, 2000, 0, 96), false)]
 }
 
 fn floors(t: Tier) -> Vec<(String, u64)> {
     if t == Tier::Miri {
         return vec![("judged".into(), 50)];
     }
-    let mut f: Vec<(String, u64)> = vec![("judged".into(), 30_000), ("expected.ok".into(), 1000), ("expected.err".into(), 20_000), ("errors.matched".into(), 30_000), ("multi_error_lists".into(), 5_000), ("zlb".into(), 10), ("stop_at_unusable_length".into(), 2000)];
+    let mut f: Vec<(String, u64)> = vec![("judged".into(), 30_000), ("expected.ok".into(), 1000), ("expected.err".into(), 20_000), ("errors.matched".into(), 30_000), ("multi_error_lists".into(), 5_000), ("zlb".into(), 10), ("stop_at_unusable_length".into(), 2000), ("many_records".into(), 50)];
     for k in 1..=N_FAULTS {
         f.push((format!("fault.{}", k), 500));
     }
@@ -190,8 +190,10 @@ fn judge(ctx: &mut Ctx, mut recs: Vec<Rec>) {
         ctx.rep.bucket("stop_at_unusable_length");
     }
     let wit = J::obj(vec![
-        ("input_hex", J::hex(&msg)),
-        ("records", J::A(recs.iter().map(|r| J::obj(vec![("hex", J::hex(&r.bytes)), ("fault", J::U(r.fault)), ("expected", J::s(format!("{:?}", r.expect)))])).collect())),
+        ("input_hex", J::hex(&msg[..msg.len().min(600)])),
+        ("input_octets", J::U(msg.len() as u64)),
+        ("record_count", J::U(recs.len() as u64)),
+        ("records", J::A(recs.iter().rev().take(12).rev().map(|r| J::obj(vec![("hex", J::hex(&r.bytes)), ("fault", J::U(r.fault)), ("expected", J::s(format!("{:?}", r.expect)))])).collect())),
     ]);
     for o in [SOpts::STRICT, SOpts::NONE] {
         let run = exec::decode_msg(&msg, Some(o), Rk::Slice);
@@ -296,6 +298,27 @@ fn run(ctx: &mut Ctx) {
                     let f = ctx.rng.range(1, N_FAULTS);
                     recs.push(faulty(&mut ctx.rng, f));
                 } else {
+                    recs.push(good(&mut ctx.rng, false));
+                }
+            }
+            judge(ctx, recs);
+        }
+        "many_records" => {
+            // thousands of minimal records, faults behind them (more AVPs than any counter sized
+            // from "typical" messages expects)
+            let n = *ctx.rng.pick(&[4_095usize, 4_096, 8_189, 8_190, 8_191, 8_192, 8_193, 10_000, 10_900]);
+            let mut recs = vec![good(&mut ctx.rng, true)];
+            let seq = SAvp { attr: 39, hidden: false, body: SBody::Empty };
+            let seq_rec = Rec { bytes: senc::avp(&seq).unwrap(), expect: None, value: Some(seq), stops: false, fault: 0 };
+            for _ in 0..n {
+                recs.push(seq_rec.clone());
+            }
+            ctx.rep.bucket("many_records");
+            let k = ctx.rng.range(0, 3);
+            for _ in 0..k {
+                let f = ctx.rng.range(1, 7);
+                recs.push(faulty(&mut ctx.rng, f));
+                if ctx.rng.bool() {
                     recs.push(good(&mut ctx.rng, false));
                 }
             }
